@@ -99,9 +99,10 @@ Fixpoint render (compressed : bool) (depth : nat) (n : node) : list Z :=
       ++ [60; 47] ++ tag ++ [62]
   end.
 
-(** ** escaping ([escape_html_text], after the repair F4) *)
+(** ** escaping ([escape_html_text], after the repairs F4 and F12) *)
 Definition replace_html_char (c : Z) : list Z :=
   if c =? 62 then (str "&gt;") else if c =? 60 then (str "&lt;") else if c =? 38 then (str "&amp;")
   else if c =? 39 then (str "&#39;") else if c =? 34 then (str "&quot;")
+  else if c =? 13 then (str "&#13;")
   else if non_xml c then [] else [c].
 Definition escape_html_text (s : list Z) : list Z := flat_map replace_html_char s.
